@@ -108,7 +108,7 @@ func TestVerifC08(t *testing.T) {
 		return
 	}
 	defer up.Stop()
-	nConf := verifkit.Pick(14, 60)
+	nConf := verifkit.Pick(14, 300)
 	for ci := 0; ci < nConf; ci++ {
 		c08Config(rep, rng, up, ci)
 	}
